@@ -400,4 +400,97 @@ example : validVertex16 ⟨"a b|c/日本", "label", .obj []⟩ = true := by deci
 example : validVertex16 ⟨"a\x00b", "L", .obj []⟩ = false := by decide
 example : validName16 "a\x00b" = false := by decide
 
+/-! ### accepted ⇒ verbatim, nothing else changes; rejected ⇒ nothing changes -/
+
+/-- insertVertex on an accepted vertex: lookup returns it verbatim and no other vertex, of this or of
+    any other graph, changes (C03's structured-key model of kvgraph.insertVertex + AddDocTx). -/
+theorem accepted_vertex_roundtrip (fields : List String) (m : KV) (g : String) (v : VertexIn)
+    (hv : validVertex16 v = true) :
+    let r := insertElem fields m g (sanitize (.v v))
+    r.2 = true ∧ getVertex r.1 g v.gid = some ⟨v.gid, v.label, storedData v.data⟩ ∧
+    ∀ g' id', (g', id') ≠ (g, v.gid) → getVertex r.1 g' id' = getVertex m g' id' := by
+  have hs : sanitize (.v v) = .v v := by simp [sanitize, validElem16, hv]
+  have hv0 : validVertex v = true := valid16_imp_valid (.v v) (by simpa [validElem16] using hv)
+  simp only [hs, insertElem, insertVertex, hv0, storedData, ofPV_toPV]
+  have key : ∀ (g' id' : String) (m0 : KV),
+      (addDoc fields m0 g "v" v.label v.gid).get (.vertex g' id') = m0.get (.vertex g' id') := by
+    intro g' id' m0
+    unfold addDoc
+    split <;> simp [get_set_ne]
+  refine ⟨by simp, ?_, ?_⟩
+  · simp [getVertex, key, get_set_eq]
+  · intro g' id' hne
+    have : SKey.vertex g' id' ≠ SKey.vertex g v.gid := by
+      intro e; injection e with e1 e2; exact hne (by rw [e1, e2])
+    simp [getVertex, key, get_set_ne _ _ _ _ this]
+
+/-- A vertex the repaired validation refuses is reported as an error and leaves the store unchanged. -/
+theorem rejected_elem_unchanged (fields : List String) (m : KV) (g : String) (x : ElemIn)
+    (hx : validElem16 x = false) : insertElem fields m g (sanitize x) = (m, false) := by
+  simp [sanitize, hx, refused, insertElem, insertVertex, validVertex]
+
+/-- Identifier refused by a delete / graph call of the repaired code: error, state unchanged. -/
+theorem rejected_call_unchanged (s : KState) (g id : String) :
+    (validName16 g = false → step16 s (.addGraph g) = (s, .err)) ∧
+    (noNul g = false → step16 s (.delGraph g) = (s, .err)) ∧
+    (noNul id = false → step16 s (.delV g id) = (s, .err)) ∧
+    (noNul id = false → step16 s (.delE g id) = (s, .err)) := by
+  refine ⟨?_, ?_, ?_, ?_⟩ <;> intro h <;> simp [step16, h]
+
+/-- Property values: the protobuf Struct conversion on the write path followed by AsMap on the read
+    path is the identity on JSON values (finite numbers; see finding C16-nonfinite-number). -/
+theorem struct_roundtrip (d : JV) : storedData d = d := ofPV_toPV d
+
+/-! ### what this buys C03: its structured filters are the Go code's byte-prefix scans -/
+
+private theorem bool_eq_of_iff {a b : Bool} (h : a = true ↔ b = true) : a = b := by
+  cases a <;> cases b <;> simp_all
+
+/-- On a store whose keys are separator-free, scanning with `bytes.HasPrefix(key, VertexListPrefix(g))`
+    selects exactly the entries C03's `vertexList`/`delGraph` select structurally. -/
+theorem scan_vertexList_faithful (m : KV) (g : String) (hg : (0 : UInt8) ∉ utf8 g)
+    (hm : ∀ p ∈ m, NulFree p.1) :
+    m.filter (fun p => hasPrefix (vertexListPrefix g) (encode p.1)) = m.filter (fun p => patVertexList g p.1) := by
+  apply List.filter_congr
+  intro p hp
+  have := vertexListPrefix_faithful g p.1 hg (hm p hp)
+  apply bool_eq_of_iff
+  rw [hasPrefix, List.isPrefixOf_iff_prefix]
+  exact this
+
+/-- Same for the out-edge scan of one vertex (GetOutChannel, DelVertex). -/
+theorem scan_srcEdge_faithful (m : KV) (g id : String) (hg : (0 : UInt8) ∉ utf8 g) (hid : (0 : UInt8) ∉ utf8 id)
+    (hm : ∀ p ∈ m, NulFree p.1) :
+    m.filter (fun p => hasPrefix (srcEdgePrefix g id) (encode p.1)) = m.filter (fun p => patSrc g id p.1) := by
+  apply List.filter_congr
+  intro p hp
+  have := srcEdgePrefix_faithful g id p.1 hg hid (hm p hp)
+  apply bool_eq_of_iff
+  rw [hasPrefix, List.isPrefixOf_iff_prefix]
+  exact this
+
+/-- Same for the edge lookup by id (GetEdge, DelEdge). -/
+theorem scan_edgeKey_faithful (m : KV) (g eid : String) (hg : (0 : UInt8) ∉ utf8 g) (he : (0 : UInt8) ∉ utf8 eid)
+    (hm : ∀ p ∈ m, NulFree p.1) :
+    m.filter (fun p => hasPrefix (edgeKeyPrefix g eid) (encode p.1)) = m.filter (fun p => patEdgeKey g eid p.1) := by
+  apply List.filter_congr
+  intro p hp
+  have := edgeKeyPrefix_faithful g eid p.1 hg he (hm p hp)
+  apply bool_eq_of_iff
+  rw [hasPrefix, List.isPrefixOf_iff_prefix]
+  exact this
+
+/-- Same for the label index lookup (VertexLabelScan → GetTermMatch). -/
+theorem scan_entryValue_faithful (m : KV) (f t : String) (hf : (0 : UInt8) ∉ utf8 f) (ht : (0 : UInt8) ∉ utf8 t)
+    (hm : ∀ p ∈ m, NulFree p.1) :
+    m.filter (fun p => hasPrefix (entryValuePrefix f t) (encode p.1)) = m.filter (fun p => patEntryValue f t p.1) := by
+  apply List.filter_congr
+  intro p hp
+  have := entryValuePrefix_faithful f t p.1 hf ht (hm p hp)
+  apply bool_eq_of_iff
+  rw [hasPrefix, List.isPrefixOf_iff_prefix]
+  exact this
+
+example : NulFree (.vertex "a" "ab") := by intro c hc; simp [comps] at hc; rcases hc with rfl | rfl | rfl <;> decide
+
 end Grip.Props.C16
